@@ -113,26 +113,27 @@ Definition set_sports v (t : transport) := mkTransport (t_profile t) (t_protocol
 Definition set_ssrc v (t : transport) := mkTransport (t_profile t) (t_protocol t) (t_delivery t) (t_source t) (t_dest t) (t_interleaved t) (t_ttl t) (t_ports t) (t_cports t) (t_sports t) (Some v) (t_mode t).
 Definition set_mode v (t : transport) := mkTransport (t_profile t) (t_protocol t) (t_delivery t) (t_source t) (t_dest t) (t_interleaved t) (t_ttl t) (t_ports t) (t_cports t) (t_sports t) (t_ssrc t) (Some v).
 
-(* loop state: the header being filled and profileFound *)
-Definition tstate := (transport * bool)%type.
+(* loop state: the header being filled, profileFound, deliveryFound *)
+Definition tstate := (transport * (bool * bool))%type.
 
-(* one iteration of the range-over-map loop; None = return err *)
+(* one iteration of the range-over-map loop; None = return err.
+   (/repo 5cae47d: a second profile key, resp. a second delivery key, is an error) *)
 Definition tstep (st : tstate) (e : kv) : option tstate :=
-  let '(t, pf) := st in
+  let '(t, fl) := st in
   let '(k, v) := e in
   match classify k with
-  | TProf p q => Some (set_prof p q t, true)
-  | TUnicast => Some (set_delivery 0 t, pf)
-  | TMulticast => Some (set_delivery 1 t, pf)
-  | TSource => Some (match v with [] => t | _ => set_source v t end, pf)
-  | TDest => Some (match v with [] => t | _ => set_dest v t end, pf)
-  | TInterleaved => option_map (fun p => (set_interleaved p t, pf)) (parse_ports v)
-  | TTtl => option_map (fun x => (set_ttl x t, pf)) (parse_uint 32 v)
-  | TPort => option_map (fun p => (set_ports p t, pf)) (parse_ports v)
-  | TCPort => option_map (fun p => (set_cports p t, pf)) (parse_ports v)
-  | TSPort => option_map (fun p => (set_sports p t, pf)) (parse_ports v)
-  | TSsrc => Some (match parse_ssrc v with Some x => set_ssrc x t | None => t end, pf)
-  | TMode => option_map (fun m => (set_mode m t, pf)) (parse_mode v)
+  | TProf p q => if fst fl then None else Some (set_prof p q t, (true, snd fl))
+  | TUnicast => if snd fl then None else Some (set_delivery 0 t, (fst fl, true))
+  | TMulticast => if snd fl then None else Some (set_delivery 1 t, (fst fl, true))
+  | TSource => Some (match v with [] => t | _ => set_source v t end, fl)
+  | TDest => Some (match v with [] => t | _ => set_dest v t end, fl)
+  | TInterleaved => option_map (fun p => (set_interleaved p t, fl)) (parse_ports v)
+  | TTtl => option_map (fun x => (set_ttl x t, fl)) (parse_uint 32 v)
+  | TPort => option_map (fun p => (set_ports p t, fl)) (parse_ports v)
+  | TCPort => option_map (fun p => (set_cports p t, fl)) (parse_ports v)
+  | TSPort => option_map (fun p => (set_sports p t, fl)) (parse_ports v)
+  | TSsrc => Some (match parse_ssrc v with Some x => set_ssrc x t | None => t end, fl)
+  | TMode => option_map (fun m => (set_mode m t, fl)) (parse_mode v)
   | TOther => Some st
   end.
 
@@ -143,10 +144,10 @@ Definition transport_unmarshal_with (order : order_t) (s : list N) : res transpo
   match kv_parse s SEMI with
   | None => Err
   | Some m =>
-    match tfold (transport0, false) (order m) with
+    match tfold (transport0, (false, false)) (order m) with
     | None => Err
-    | Some (t, true) => Ok t
-    | Some (_, false) => Err
+    | Some (t, (true, _)) => Ok t
+    | Some (_, (false, _)) => Err
     end
   end.
 
@@ -191,24 +192,6 @@ Definition transports_unmarshal_with (order : order_t) (s : list N) : res (list 
 
 Definition transports_marshal (ts : list transport) : list N :=
   join [COMMA] (map transport_marshal ts).
-
-(* ---- candidate iteration orders (used by [run] to enumerate the possible outcomes) ----
-   move entry i, then entry j, to the end of the iteration *)
-Fixpoint remove_nth {A} (i : N) (l : list A) : list A :=
-  match l with
-  | [] => []
-  | x :: t => if i =? 0 then t else x :: remove_nth (N.pred i) t
-  end.
-Definition move_last {A} (i : N) (l : list A) : list A :=
-  match nnth i l with Some x => remove_nth i l ++ [x] | None => l end.
-Fixpoint iota_aux {A} (l : list A) (i : N) : list N :=
-  match l with [] => [] | _ :: t => i :: iota_aux t (N.succ i) end.
-Definition indices {A} (l : list A) : list N := iota_aux l 0.
-(* all orders "identity with i then j moved last" for i, j over the entries *)
-Definition cand_orders (m : kvs) : list order_t :=
-  id_order ::
-  flat_map (fun i => flat_map (fun j =>
-     [fun l : kvs => move_last (if j <? i then N.pred i else i) (move_last j l)]) (indices m)) (indices m).
 
 (* ---- wire ---- *)
 Definition enc_opt {A} (o : option A) (f : A -> list N) : list N :=
